@@ -28,10 +28,19 @@ def modelConv (row : Nat) (x : Int) : Option Obs :=
     match Gen.unmodelledConversions[row - Gen.conversions.length]? with
     | some e => if srcHolds e x then some (convCells (convSpec platformPw e x)) else none
     | none => none
+/-- an infallible conversion (`From`) of a source value the destination type cannot hold: no result is both faithful
+    and in range (C04 / C05), so whatever the implementation returns differs from this cell -/
+def noLawfulResult : Obs := [3, 0]
+
+def specCells (e : ConvEntry) (x : Int) : Obs :=
+  match tyLo platformPw e.dst, tyHi platformPw e.dst with
+  | some lo, some hi => if !e.kind.isTry && !(decide (lo ≤ x ∧ x ≤ hi)) then noLawfulResult else convCells (convSpec platformPw e x)
+  | _, _ => convCells (convSpec platformPw e x)
+
 def specConv (row : Nat) (x : Int) : Option Obs :=
   match Gen.conversions[row]? with
-  | some e => some (convCells (convSpec platformPw e x))
-  | none => (Gen.unmodelledConversions[row - Gen.conversions.length]?).map (fun e => convCells (convSpec platformPw e x))
+  | some e => some (specCells e x)
+  | none => (Gen.unmodelledConversions[row - Gen.conversions.length]?).map (fun e => specCells e x)
 
 def configOfName (s : String) : Config :=
   match s with
